@@ -35,6 +35,12 @@ def battery(req):
         tkw["output_encoding"] = oenc
     if req.get("input_encoding"):
         lookup_kw["input_encoding"] = req["input_encoding"]
+    if req.get("noloop"):
+        lookup_kw["enable_loop"] = False
+        tkw["enable_loop"] = False
+    if req.get("encoding_errors"):
+        lookup_kw["encoding_errors"] = req["encoding_errors"]
+        tkw["encoding_errors"] = req["encoding_errors"]
     try:
         if path == "text":
             with open(src, "rb") as f:
@@ -61,7 +67,8 @@ def battery(req):
         elif path == "modtemplate":
             lk = mako.lookup.TemplateLookup(module_directory=req["moddir"], **lookup_kw)
             mod = mako.compat.load_module("mt_" + "".join(c if c.isalnum() else "_" for c in uri), req["modfile"])
-            t = mako.template.ModuleTemplate(mod, module_filename=req["modfile"], template_filename=src, lookup=lk, **tkw)
+            t = mako.template.ModuleTemplate(mod, module_filename=req["modfile"], template_filename=src, lookup=lk,
+                                             **{k_: v_ for k_, v_ in tkw.items() if k_ != "enable_loop"})  # enable_loop comes from the module
         else:
             raise ValueError(path)
     except Exception as e:
